@@ -26,7 +26,8 @@ def gen_table(rng):
     poly = int(rng.integers(1, 4))
     noff = int(rng.integers(0, 3))
     has_tref = rng.random() < 0.75
-    t_ref = Time(rng.uniform(50000, 60000), format="mjd", scale="tcb") if has_tref else None
+    # the reference epoch may be on any time scale (astropy's default is UTC; RVData hands over whatever the user gave)
+    t_ref = Time(rng.uniform(50000, 60000), format="mjd", scale=str(rng.choice(["tcb", "tcb", "utc", "tdb", "tt"]))) if has_tref else None
     s = JokerSamples(t_ref=t_ref, poly_trend=poly, n_offsets=noff)
     final = s
     s = {}          # columns are collected first and inserted in a random order below
@@ -170,7 +171,7 @@ def run(ctx):
                         ctx.violation("t0-not-periastron", "RV at get_t0() is %.9g, periastron value %.9g" % (got, want),
                                       dict(desc, row=r, e=e, K=K, omega=w))
             else:
-                tr = Time(55000.0, format="mjd", scale="tcb")
+                tr = Time(55000.0, format="mjd", scale=str(rng.choice(["tcb", "utc", "tdb"])))
                 s.get_time_with_phase(phase, t_ref=tr)
                 ops.append("phase-time-explicit-tref")
             # wrap_K through the curve, then the contract
